@@ -338,6 +338,17 @@ func (e *Enc) doCallInner(ci ssa.CallInstruction, c *ssa.CallCommon, args []Term
 				for i := range args {
 					e.argTerm(c, args, i)
 				}
+				if d.HasArgs {
+					se := e.specEnv(e.entry, e.cur, nil)
+					args = nil
+					for _, ax := range d.Args {
+						v, err := se.eval(ax)
+						if err != nil {
+							return nil, fmt.Errorf("%s: dyncall %s argument: %v", e.key, name, err)
+						}
+						args = append(args, v.t)
+					}
+				}
 				return e.applyContract(ci, spec, nil, "dyn:"+name, args, nil, sig, nil)
 			}
 		}
@@ -832,7 +843,9 @@ func (e *Enc) checkExit() error {
 				return err
 			}
 		}
-		e.cover("exit", exitG)
+		if fc == nil || !fc.PanicsAlways {
+			e.cover("exit", exitG)
+		}
 	} else if fc == nil || !fc.PanicsAlways {
 		e.warn("no normal return reachable")
 	}
@@ -1070,9 +1083,6 @@ func (e *Enc) callWrites(li *loopInfo, ci ssa.CallInstruction, ws writeSets) boo
 	} else if f := c.StaticCallee(); f != nil {
 		fn = f
 		fc = e.prog.contractOf(f)
-		if _, isClo := c.Value.(*ssa.MakeClosure); isClo {
-			fc = nil
-		}
 	} else if e.fc != nil {
 		name := e.dynName(c.Value)
 		for _, d := range e.fc.DynCalls {
@@ -1100,6 +1110,15 @@ func (e *Enc) callWrites(li *loopInfo, ci ssa.CallInstruction, ws writeSets) boo
 						se.binds[p.Name()] = specVal{t: args[i], typ: p.Type()}
 					}
 				}
+				if mc, ok := c.Value.(*ssa.MakeClosure); ok {
+					for i, fv := range fn.FreeVars {
+						if i < len(mc.Bindings) && e.definedOutside(li, mc.Bindings[i]) {
+							se.binds[fv.Name()] = specVal{t: e.val(mc.Bindings[i]), typ: fv.Type(), cell: true}
+						} else {
+							se.binds[fv.Name()] = specVal{t: T("POISON", SInt), typ: fv.Type(), cell: true}
+						}
+					}
+				}
 			} else {
 				se.pkg = e.prog.typesPkg(fc.PkgPath)
 				for i, pn := range fc.Params {
@@ -1120,7 +1139,7 @@ func (e *Enc) callWrites(li *loopInfo, ci ssa.CallInstruction, ws writeSets) boo
 			}
 			if okAll {
 				for _, t := range tgts {
-					if t.whole {
+					if t.whole || strings.Contains(t.index.S, "POISON") {
 						ws.whole(t.heap, t.sort)
 					} else {
 						ws.addr(t.heap, t.sort, t.index)
